@@ -33,7 +33,10 @@ Inductive case :=
    recovery message, the view of the payload it copies (-1: none), equal field by field, witness verifies); the number of
    synchronous rounds until every live service produced the block; decided, same block, ledgers accept, chain goes on *)
 | CRecovery (n w : N) (items : list (N * N * N * Z * bool * bool)) (rounds : N)
-            (decided same_block accepted after_ok : bool).
+            (decided same_block accepted after_ok : bool)
+(* full blocks: every pool holds [total] valid transactions, the binding limit allows [cap] per block; transactions carried
+   by the successive blocks, and hashes in the successive proposals of the real primaries *)
+| CFull (total cap : N) (blocks : list N) (proposed : list N).
 
 Definition sendrec := (N * N * N * N * N * N)%type.   (* index, sender, height, type, view, b *)
 
@@ -160,6 +163,14 @@ Definition check_case (c : case) : N :=
       (* specification: M signatures, each valid for some validator, in validator order, both ledgers accept *)
       let spec := own_ok && other_ok && Nat.eqb (length signers) m && increasing signers (-1)
                   && seq_match (verify_hd cur) (seq 0 (length views)) w in
+      if mech && spec then 0 else if spec then 1 else 2
+  | CFull total cap blocks proposed =>
+      (* Consensus/Packing.v: the primary proposes min(cap, what is left); the backups accept it, so it is the block *)
+      let fix chunks (fuel : nat) (left : N) : list N :=
+        match fuel with O => [] | S f => if left =? 0 then [] else N.min cap left :: chunks f (left - N.min cap left) end in
+      let want := chunks (S (N.to_nat total)) total in
+      let spec := negb (cap =? 0) && list_eqb N.eqb blocks want in
+      let mech := list_eqb N.eqb proposed want in
       if mech && spec then 0 else if spec then 1 else 2
   | CRecovery n w items rounds decided same accepted after_ok =>
       (* mechanism (Consensus/Recovery.v restore): preparations and commits are stamped with the view of the message *)
